@@ -1,6 +1,7 @@
 (* C03: which items of a file are to be generated (declarative) and what is expected of each. *)
 From Coq Require Import String.
 From TS Require Import Model.Str Model.Unicode Model.Syntax Model.Attrs Spec.Serde Spec.TargetOsRule.
+From TS Require Import Model.Types Model.Parse Model.Lang.Decl Model.Lang.ConvertCase Spec.SerdeCase Spec.C16Spec.
 
 (* the struct / enum / type / const items of a file in source (= syn visit) order, at any nesting
    depth: inside modules, function bodies, impl blocks *)
@@ -36,3 +37,391 @@ Definition expected_field_names (l : list field) : list str :=
 Definition expected_variant_names (vs : list variant) : list str :=
   map (fun v => unraw (v_ident v)) (filter (fun v => negb (member_skipped (v_attrs v))) vs).
 End T.
+
+(* ====================================================================================================
+   Part 2 (C03 proper).  Three computable verdicts, all extracted and evaluated on the real tool's
+   observations by checks/c03.py:
+
+     good_C03_front    which items a file yields (parser::parse's ParsedData)          - C03_items
+     expected_*_names  which members an item lists (above)                             - C03_members
+     good_C03_item / good_C03_file / good_C03_src_file
+                       which definitions a generated file contains and which members /
+                       variants each lists, on the observation of Model/Lang/Decl.v    - C03_back_<L>
+
+   Only DATA types of the model are used here (the IR of Model/Types.v, the record `parsed`, the
+   observation type `decl`); no function of the model's pipeline is called.
+   ==================================================================================================== *)
+Definition c03_cls (s : string) : option string := Some s.
+Definition c03_is_nil {A} (l : list A) : bool := match l with [] => true | _ => false end.
+
+(* a Rust identifier never contains '#' except in the raw prefix r# (a fact about syn's output) *)
+Definition c03_ident_ok (i : str) : bool := forallb (fun c => negb (c =? 35)) (unraw i).
+
+(* ---------------------------------------------------------------------------------------------
+   Front end.  Observation of one parsed file: the Rust identifiers (id.original) of the collected
+   structs / enums / aliases / consts, each list in collection order, and the number of recorded
+   errors (ParsedData.errors carries no item name).
+   --------------------------------------------------------------------------------------------- *)
+Record c03_front_obs := { c03_structs : list str; c03_enums : list str; c03_aliases : list str;
+                          c03_consts : list str; c03_nerr : nat }.
+Definition c03_empty_obs : c03_front_obs :=
+  {| c03_structs := []; c03_enums := []; c03_aliases := []; c03_consts := []; c03_nerr := 0 |}.
+
+(* projection of parser::parse's answer (None = nothing collected for the file) *)
+Definition c03_obs_of_parsed (r : option parsed) : c03_front_obs :=
+  match r with
+  | None => c03_empty_obs
+  | Some pd => {| c03_structs := map (fun s => original (sid s)) (p_structs pd);
+                  c03_enums := map (fun e => original (eid (enum_shared e))) (p_enums pd);
+                  c03_aliases := map (fun a => original (aid a)) (p_aliases pd);
+                  c03_consts := map (fun c => original (cid c)) (p_consts pd);
+                  c03_nerr := List.length (p_errors pd) |}
+  end.
+
+Definition c03_pop (name : str) (l : list str) : option (list str) :=
+  match l with x :: r => if str_eqb x name then Some r else None | [] => None end.
+
+(* Is there a way to account for EVERY expected leaf, in source order, by exactly one of: an error,
+   or the next not yet used entry of a list its item kind may end up in (a struct or enum may become
+   an alias: tuple structs, typeshare(serialized_as)) under its own identifier - using up all
+   entries?  None dropped, none duplicated, none invented, order kept. *)
+Fixpoint c03_assign (exp : list item) (ss es als cs : list str) (nerr : nat) : bool :=
+  match exp with
+  | [] => c03_is_nil ss && c03_is_nil es && c03_is_nil als && c03_is_nil cs && Nat.eqb nerr 0
+  | x :: r =>
+    let nm := unraw (leaf_ident x) in
+    (match nerr with S n => c03_assign r ss es als cs n | O => false end) ||
+    (match x, c03_pop nm ss with IStruct _ _ _ _, Some ss' => c03_assign r ss' es als cs nerr | _, _ => false end) ||
+    (match x, c03_pop nm es with IEnum _ _ _ _, Some es' => c03_assign r ss es' als cs nerr | _, _ => false end) ||
+    (match x, c03_pop nm als with
+     | IStruct _ _ _ _, Some als' | IEnum _ _ _ _, Some als' | IType _ _ _ _, Some als' => c03_assign r ss es als' cs nerr
+     | _, _ => false
+     end) ||
+    (match x, c03_pop nm cs with IConst _ _ _ _, Some cs' => c03_assign r ss es als cs' nerr | _, _ => false end)
+  end.
+
+(* the kinds of IR item a source item may become: a struct or enum may become an alias (tuple struct,
+   typeshare(serialized_as)); nothing else changes kind *)
+Definition c03_leaf_kind_ok (x : item) (it : ritem) : Prop :=
+  match x, it with
+  | IStruct _ _ _ _, ItStruct _ | IStruct _ _ _ _, ItAlias _
+  | IEnum _ _ _ _, ItEnum _ | IEnum _ _ _ _, ItAlias _
+  | IType _ _ _ _, ItAlias _ | IConst _ _ _ _, ItConst _ => True
+  | _, _ => False
+  end.
+
+Definition c03_leaf_ok (x : item) : bool := cfg_parsable (leaf_attrs x) && c03_ident_ok (leaf_ident x).
+Definition c03_field_ok (f : field) : bool :=
+  cfg_parsable (f_attrs f) && match f_ident f with Some i => c03_ident_ok i | None => true end.
+Definition c03_variant_ok (v : variant) : bool :=
+  cfg_parsable (v_attrs v) && c03_ident_ok (v_ident v) &&
+  match v_fields v with FNamed l => forallb c03_field_ok l | _ => true end.
+(* the quantifier of C03_members on one item: cfg attributes rustc accepts, identifiers *)
+Definition dom_C03_members (it : item) : bool :=
+  match it with
+  | IStruct _ _ _ (FNamed l) => forallb c03_field_ok l
+  | IEnum _ _ _ vs => forallb c03_variant_ok vs
+  | _ => true
+  end.
+
+Section Front.
+Variable T : list str.
+(* the quantifier of C03_items: every cfg attribute on the file and on its items is one rustc accepts *)
+Definition dom_C03_front (f : file) : bool :=
+  cfg_parsable (fl_attrs f) && forallb c03_leaf_ok (leaves_of (fl_items f)).
+Definition good_C03_front (f : file) (o : c03_front_obs) : bool :=
+  c03_assign (expected_leaves T f) (c03_structs o) (c03_enums o) (c03_aliases o) (c03_consts o) (c03_nerr o).
+End Front.
+
+(* ---------------------------------------------------------------------------------------------
+   Back ends.  What a generated file must DEFINE, stated on the language-independent observation
+   of Model/Lang/Decl.v (the same structure lib/extract.py recovers from the real tool's text).
+
+   The facet of C03 is PRESENCE: which definitions exist and which members / variants each lists,
+   in which order.  How a definition is named (prefixes, original vs renamed, acronyms, case of
+   consts) is C02's / C09's subject, the exact spelling of a key C01's; so a definition is
+   identified here by its SIGNATURE (kind, ordered member keys, ordered variant wire names, the
+   ordered member keys of every struct variant written inline) and a member key is compared up to
+   '-' / '_' (Scala and Kotlin declare `a_b` for the key `a-b`: C01's subject, not a missing member).
+   --------------------------------------------------------------------------------------------- *)
+Definition c03_undash (s : str) : str := replace_char ch_dash ch_us s.
+
+Record c03_sig := { xs_kind : defkind; xs_members : list str; xs_variants : list str; xs_inline : list (list str) }.
+
+Definition c03_kind_eqb (a b : defkind) : bool :=
+  match a, b with
+  | DStruct, DStruct | DEnum, DEnum | DAlias, DAlias | DConst, DConst | DHelper, DHelper => true
+  | _, _ => false
+  end.
+Fixpoint c03_strs_eqb (a b : list str) : bool :=
+  match a, b with
+  | [], [] => true
+  | x :: a', y :: b' => str_eqb x y && c03_strs_eqb a' b'
+  | _, _ => false
+  end.
+Fixpoint c03_strss_eqb (a b : list (list str)) : bool :=
+  match a, b with
+  | [], [] => true
+  | x :: a', y :: b' => c03_strs_eqb x y && c03_strss_eqb a' b'
+  | _, _ => false
+  end.
+Definition c03_sig_eqb (a b : c03_sig) : bool :=
+  c03_kind_eqb (xs_kind a) (xs_kind b) && c03_strs_eqb (xs_members a) (xs_members b) &&
+  c03_strs_eqb (xs_variants a) (xs_variants b) && c03_strss_eqb (xs_inline a) (xs_inline b).
+Fixpoint c03_sigs_eqb (a b : list c03_sig) : bool :=
+  match a, b with
+  | [], [] => true
+  | x :: a', y :: b' => c03_sig_eqb x y && c03_sigs_eqb a' b'
+  | _, _ => false
+  end.
+
+Definition c03_member_keys (ms : list member) : list str := map (fun m => c03_undash (mb_key m)) ms.
+Definition c03_inline_keys (v : variantd) : list (list str) :=
+  match vd_payload v with PayInline ms => [c03_member_keys ms] | _ => [] end.
+
+(* the signature of an observed definition: members count for struct-like definitions, variants for
+   enums and for the helper a back end derives from an enum (Python's <Enum>Types) *)
+Definition c03_sig_of (d : decl) : c03_sig :=
+  {| xs_kind := d_kind d;
+     xs_members := match d_kind d with DStruct => c03_member_keys (d_members d) | _ => [] end;
+     xs_variants := match d_kind d with DEnum | DHelper => map vd_wire (d_variants d) | _ => [] end;
+     xs_inline := match d_kind d with DEnum => flat_map c03_inline_keys (d_variants d) | _ => [] end |}.
+
+(* ---- what the IR says must be there ---- *)
+Definition c03_keys_of (fs : list rfield) : list str := map (fun f => c03_undash (renamed (fid f))) fs.
+Definition c03_wires_of (vs : list rvariant) : list str := map (fun v => renamed (vid (variant_shared v))) vs.
+
+Definition c03_x_struct (keys : list str) : c03_sig := {| xs_kind := DStruct; xs_members := keys; xs_variants := []; xs_inline := [] |}.
+Definition c03_x_plain (k : defkind) : c03_sig := {| xs_kind := k; xs_members := []; xs_variants := []; xs_inline := [] |}.
+Definition c03_x_enum (wires : list str) (inl : list (list str)) : c03_sig :=
+  {| xs_kind := DEnum; xs_members := []; xs_variants := wires; xs_inline := inl |}.
+Definition c03_x_helper (wires : list str) : c03_sig := {| xs_kind := DHelper; xs_members := []; xs_variants := wires; xs_inline := [] |}.
+
+(* TypeScript inlines struct variants; the other five derive one <Enum><Variant>Inner struct each *)
+Definition c03_inlines (L : lang) : bool := match L with TypeScript => true | _ => false end.
+(* the helper definition a back end adds to an ALGEBRAIC enum: Go's key type `<Enum><Tag>s` (its
+   constants are listed with the enum), Python's `<Enum>Types` class (it lists the wire names) *)
+Definition c03_enum_helper (L : lang) (wires : list str) : list c03_sig :=
+  match L with
+  | Go => [c03_x_helper []]
+  | Python => [c03_x_helper wires]
+  | _ => []
+  end.
+
+Definition c03_anon_keys (vs : list rvariant) : list (list str) :=
+  flat_map (fun v => match v with VAnon fs _ => [c03_keys_of fs] | _ => [] end) vs.
+
+(* the definitions expected for one IR item, in output order *)
+Definition c03_expected_sigs (L : lang) (it : ritem) : list c03_sig :=
+  match it with
+  | ItStruct s => [c03_x_struct (c03_keys_of (sfields s))]
+  | ItAlias _ => [c03_x_plain DAlias]
+  | ItConst _ => [c03_x_plain DConst]
+  | ItEnum e =>
+    let vs := evariants (enum_shared e) in
+    (if c03_inlines L then [] else map c03_x_struct (c03_anon_keys vs)) ++
+    (match e with EAlgebraic _ _ _ => c03_enum_helper L (c03_wires_of vs) | EUnit _ => [] end) ++
+    [c03_x_enum (c03_wires_of vs) (if c03_inlines L then c03_anon_keys vs else [])]
+  end.
+
+(* every variant of an enum definition carries the payload form of its source variant *)
+Definition c03_payload_ok (L : lang) (v : rvariant) (vd : variantd) : bool :=
+  match v, vd_payload vd with
+  | VUnit _, PayUnit => true
+  | VTuple _ _, PayNewtype _ _ => true
+  | VAnon _ _, PayInline _ => c03_inlines L
+  | VAnon _ _, PayRef _ _ => negb (c03_inlines L)
+  | _, _ => false
+  end.
+Fixpoint c03_forall2b {A B} (p : A -> B -> bool) (a : list A) (b : list B) : bool :=
+  match a, b with
+  | [], [] => true
+  | x :: a', y :: b' => p x y && c03_forall2b p a' b'
+  | _, _ => false
+  end.
+Definition c03_payloads_ok (L : lang) (it : ritem) (ds : list decl) : bool :=
+  match it with
+  | ItEnum e => forallb (fun d => match d_kind d with
+                                  | DEnum => c03_forall2b (c03_payload_ok L) (evariants (enum_shared e)) (d_variants d)
+                                  | _ => true
+                                  end) ds
+  | _ => true
+  end.
+
+(* the IR states the parser produces: a unit enum has unit variants only (Proofs.C03.parsed_in_dom) *)
+Definition c03_is_unit_variant (v : rvariant) : bool := match v with VUnit _ => true | _ => false end.
+Definition dom_C03_item (it : ritem) : bool :=
+  match it with
+  | ItEnum (EUnit sh) => forallb c03_is_unit_variant (evariants sh)
+  | _ => true
+  end.
+
+(* verdict for ONE item: [ds] are the definitions emitted for it, in output order *)
+Definition good_C03_item (L : lang) (it : ritem) (ds : list decl) : bool :=
+  c03_sigs_eqb (map c03_sig_of ds) (c03_expected_sigs L it) && c03_payloads_ok L it ds.
+
+Definition c03_non_helper (x : c03_sig) : bool := match xs_kind x with DHelper => false | _ => true end.
+Definition c03_count_sig (x : c03_sig) (l : list c03_sig) : nat := List.length (filter (c03_sig_eqb x) l).
+(* same multiset *)
+Definition c03_perm_b (a b : list c03_sig) : bool :=
+  forallb (fun x => Nat.eqb (c03_count_sig x a) (c03_count_sig x b)) (a ++ b).
+
+(* verdict for a file: apart from helper definitions (the per-item ones are judged by good_C03_item,
+   the file-level ones - CodableVoid, UByte.., TypeVars, translation functions - are C12's subject),
+   the definitions are, as a multiset of signatures, exactly the expected ones: one per item plus
+   the derived <Enum><Variant>Inner structs, none missing, none twice, none invented.  (A multiset:
+   reconcile sorts and topsort reorders the items - the order of definitions is C11's subject.) *)
+Definition good_C03_sigs (observed expected : list c03_sig) : bool :=
+  c03_perm_b (filter c03_non_helper observed) (filter c03_non_helper expected).
+
+Definition c03_all_items (pd : parsed) : list ritem :=
+  map ItAlias (p_aliases pd) ++ map ItStruct (p_structs pd) ++ map ItEnum (p_enums pd) ++ map ItConst (p_consts pd).
+Definition dom_C03_file (pd : parsed) : bool := forallb dom_C03_item (c03_all_items pd).
+Definition good_C03_file (L : lang) (pd : parsed) (fd : file_decls) : bool :=
+  good_C03_sigs (map c03_sig_of (fd_decls fd)) (flat_map (c03_expected_sigs L) (c03_all_items pd)).
+
+Section KnownIR.
+Variable uc : unicode.
+
+(* python.rs:620: the member of <Enum>Types that stands for a wire name *)
+Definition c03_py_type_key (wire : str) : str := str_to_uppercase uc (cc_to_snake uc wire).
+Fixpoint c03_first_wire (entries : list (str * str)) (key : str) : str :=
+  match entries with
+  | [] => []
+  | (k, w) :: r => if str_eqb k key then w else c03_first_wire r key
+  end.
+(* two variants whose wire names differ get the same Types member: the later variant class then
+   refers to the earlier one's wire name (the variant is listed under a wire name that is not its own) *)
+Definition c03_py_key_collision (wires : list str) : bool :=
+  let entries := map (fun w => (c03_py_type_key w, w)) wires in
+  existsb (fun kw => negb (str_eqb (c03_first_wire entries (fst kw)) (snd kw))) entries.
+
+Definition known_C03_item (L : lang) (it : ritem) : option string :=
+  match L, it with
+  | Python, ItEnum (EAlgebraic _ _ sh) =>
+    if c03_py_key_collision (c03_wires_of (evariants sh)) then c03_cls "C03-python-typekey-collision" else None
+  | _, _ => None
+  end.
+
+Definition known_C03_file (L : lang) (pd : parsed) : option string :=
+  match L with
+  | Scala => if c03_is_nil (p_consts pd) then None else c03_cls "C03-scala-const"
+  | Python => if existsb (fun e => match known_C03_item Python (ItEnum e) with Some _ => true | None => false end) (p_enums pd)
+              then c03_cls "C03-python-typekey-collision" else None
+  | _ => None
+  end.
+End KnownIR.
+
+(* ---------------------------------------------------------------------------------------------
+   Source side: the same expectation computed from the syn-level AST with serde's reading of the
+   attributes (Spec/Serde.v), for conventional identifiers.  This is what the check judges the real
+   tool's generated files with.
+   --------------------------------------------------------------------------------------------- *)
+Definition c03_key_char (c : char) : bool := is_aalpha c || is_adigit c || (c =? ch_us) || (c =? ch_dash).
+Definition c03_rule_ok (ra : option str) : bool := match ra with None => true | Some s => forallb c03_key_char s end.
+Definition c03_okey (o : option str) : str := match o with Some k => k | None => [] end.
+
+Section Src.
+Variable uc : unicode.
+Variable T : list str.
+
+Definition c03_kept_fields (l : list field) : list field := filter (fun f => negb (member_skipped T (f_attrs f))) l.
+Definition c03_kept_variants (vs : list variant) : list variant := filter (fun v => negb (member_skipped T (v_attrs v))) vs.
+
+Definition c03_src_keys (container_attrs : list attr) (l : list field) : list str :=
+  map (fun f => c03_undash (c03_okey (match f_ident f with
+                                      | Some i => field_key (serde_nv container_attrs (lit "rename_all")) (f_attrs f) i
+                                      | None => None
+                                      end))) (c03_kept_fields l).
+Definition c03_src_wires (enum_attrs : list attr) (vs : list variant) : list str :=
+  map (fun v => c03_okey (variant_name uc (serde_nv enum_attrs (lit "rename_all")) (v_attrs v) (v_ident v))) (c03_kept_variants vs).
+
+Definition c03_src_anon_keys (vs : list variant) : list (list str) :=
+  flat_map (fun v => match v_fields v with FNamed l => [c03_src_keys (v_attrs v) l] | _ => [] end) (c03_kept_variants vs).
+Definition c03_src_is_unit (v : variant) : bool := match v_fields v with FUnit => true | _ => false end.
+
+(* typeshare(serialized_as = "..") turns a struct / enum into an alias *)
+Definition c03_serialized_as (attrs : list attr) : bool :=
+  existsb (fun a => match a_meta a with
+                    | MList [p] (Some args) _ =>
+                      str_eqb p (lit "typeshare") &&
+                      existsb (fun m => match m with MNV [n] (VStr _) => str_eqb n (lit "serialized_as") | _ => false end) args
+                    | _ => false
+                    end) attrs.
+
+(* the definitions expected for one annotated source item *)
+Definition c03_src_expected_sigs (L : lang) (it : item) : list c03_sig :=
+  match it with
+  | IStruct a _ _ fs =>
+    if c03_serialized_as a then [c03_x_plain DAlias] else
+    match fs with
+    | FNamed l => [c03_x_struct (c03_src_keys a l)]
+    | FUnnamed _ => [c03_x_plain DAlias]
+    | FUnit => [c03_x_struct []]
+    end
+  | IEnum a _ _ vs =>
+    if c03_serialized_as a then [c03_x_plain DAlias] else
+    (if c03_inlines L then [] else map c03_x_struct (c03_src_anon_keys vs)) ++
+    (if forallb c03_src_is_unit (c03_kept_variants vs) then [] else c03_enum_helper L (c03_src_wires a vs)) ++
+    [c03_x_enum (c03_src_wires a vs) (if c03_inlines L then c03_src_anon_keys vs else [])]
+  | IType _ _ _ _ => [c03_x_plain DAlias]
+  | IConst _ _ _ _ => [c03_x_plain DConst]
+  | _ => []
+  end.
+
+(* the quantifier of the property on one item, as far as the KEYS are concerned: conventional
+   identifiers (snake_case fields, CamelCase variants), rename / rename_all strings over the key
+   alphabet, cfg attributes that rustc accepts (everything else is C01 / C02 / C16 territory) *)
+Definition c03_conv_member_field (f : field) : bool :=
+  cfg_parsable (f_attrs f) &&
+  (member_skipped T (f_attrs f) ||
+   (match f_ident f with Some i => conv_field (unraw i) | None => false end &&
+    c03_rule_ok (serde_nv (f_attrs f) (lit "rename")))).
+Definition c03_conv_fields (container_attrs : list attr) (l : list field) : bool :=
+  c03_rule_ok (serde_nv container_attrs (lit "rename_all")) && forallb c03_conv_member_field l.
+Definition c03_conv_variant (v : variant) : bool :=
+  cfg_parsable (v_attrs v) &&
+  (member_skipped T (v_attrs v) ||
+   (match known_C16 PVariant (unraw (v_ident v)) with None => true | Some _ => false end &&
+    c03_rule_ok (serde_nv (v_attrs v) (lit "rename")) &&
+    match v_fields v with FNamed l => c03_conv_fields (v_attrs v) l | _ => true end)).
+Definition dom_C03_src (it : item) : bool :=
+  match it with
+  | IStruct a _ _ (FNamed l) => c03_conv_fields a l
+  | IEnum a _ _ vs => c03_rule_ok (serde_nv a (lit "rename_all")) && forallb c03_conv_variant vs
+  | _ => true
+  end.
+Definition dom_C03_src_file (f : file) : bool :=
+  dom_C03_front f && forallb dom_C03_src (expected_leaves T f).
+
+(* verdict for one source item on the definitions emitted for it *)
+Definition good_C03_src (L : lang) (it : item) (ds : list decl) : bool :=
+  c03_sigs_eqb (map c03_sig_of ds) (c03_src_expected_sigs L it).
+
+(* verdict for one source file on everything the generated file defines *)
+Definition c03_src_file_expected (L : lang) (f : file) : list c03_sig :=
+  flat_map (c03_src_expected_sigs L) (expected_leaves T f).
+Definition good_C03_src_file (L : lang) (f : file) (observed : list c03_sig) : bool :=
+  good_C03_sigs observed (c03_src_file_expected L f).
+
+(* finding classes, decided on the source: an annotated const that the parser can accept (its first
+   literal is an integer: Proofs.FrontItems.const_needs_int_literal) in a file generated for Scala;
+   a data-carrying enum two of whose wire names share a Types member, for Python *)
+Definition c03_const_candidate (x : item) : bool :=
+  match x with
+  | IConst _ _ _ e => match ce_first_lit e with Some (CInt (Some _)) => true | _ => false end
+  | _ => false
+  end.
+Definition c03_src_py_collision (x : item) : bool :=
+  match x with
+  | IEnum a _ _ vs => negb (c03_serialized_as a) && negb (forallb c03_src_is_unit (c03_kept_variants vs)) &&
+                      c03_py_key_collision uc (c03_src_wires a vs)
+  | _ => false
+  end.
+Definition known_C03_src_file (L : lang) (f : file) : option string :=
+  match L with
+  | Scala => if existsb c03_const_candidate (expected_leaves T f) then c03_cls "C03-scala-const" else None
+  | Python => if existsb c03_src_py_collision (expected_leaves T f) then c03_cls "C03-python-typekey-collision" else None
+  | _ => None
+  end.
+End Src.
